@@ -1,5 +1,7 @@
 import Gallia.Proofs.Lemmas.ScansId
 import Gallia.Proofs.Lemmas.ScansWire
+import Gallia.Proofs.Lemmas.ScansCheck
+import Gallia.Proofs.Lemmas.ScansBound
 import Gallia.Gen.C10
 /-
   C10 — Service and identifier scans report what the ECU really supports, nothing else.
@@ -12,7 +14,12 @@ import Gallia.Gen.C10
   * for every **session-determined ECU obeying the ISO default rule** (`SessEcu`, `IsoServiceRule`; the class the
     virtual ECU of C13 belongs to): what is reported (`found_supported`, `found_complete`, `scan_sound`,
     `scan_complete`, `scan_exact`, `reset_same_result`) and what is counted (`ident_count`, `ident_scan_counts`);
-  * for the client loop between scanner and wire: `pending_transparent`, `stuck_needs_max_pending`.
+  * for the client loop between scanner and wire: `pending_transparent`, `stuck_needs_max_pending`;
+  * for ECUs that **lose the session silently** (`AnsBySession`: answers determined by a session component that may
+    change in any way) and read it back honestly: what `--check-session` buys (`check_establishes_session`,
+    `probes_in_claimed_session_checked`, `found_supported_checked`, `lost_session_reports_nothing`,
+    `given_up_scan_exits_1`);
+  * termination with an explicit bound on the number of requests (`requests_bounded`).
 -/
 namespace Gallia.C10
 open Gallia Gallia.Scans
@@ -408,6 +415,93 @@ theorem stuck_needs_max_pending (w : WireEcu σ) (retry : Bytes → Nat) (s : σ
   exchangeLoop_stuck w pdu _ s h
 
 
+/-! ### `--check-session` against ECUs that lose the session -/
+
+/-- **a passed session check establishes the session.**  For every ECU whose answers are determined by a session
+    component — however that component changes: silent drops, refused re-entries, hooks — that answers the `22 F1 86`
+    read-back honestly and does not change session by answering it: when `check_and_set_session(k)` returns `True`, the
+    ECU is in session `k` -/
+theorem check_establishes_session {e : Ecu σ} (A : AnsBySession e) (hr : ReadsBack A) (hk : Keeps A readSessionPdu)
+    (h : Hooks) (k retries : Nat) (s : σ) (hok : (checkAndSetSession e h k retries s).2 = .ok true) :
+    A.sess (checkAndSetSession e h k retries s).1 = k :=
+  check_establishes A hr hk h k retries s hok
+
+/-- **with `--check-session` on every probe is still sent in the session it is reported under**, as far as that is
+    possible at all: the first (1-byte) probe of every service id, and every probe of a service id whose own probes do
+    not make the ECU leave the session, reaches the ECU in session `k` — for every such ECU, wherever it was when the
+    scan of `k` started and whatever it did to its session in between; also when the scan is given up or dies.
+    (A later probe of a service id whose first probe itself made the ECU drop the session is sent without a new check:
+    that is what the code does, and the property's "exactly in the session it claims" does not hold for such ids.) -/
+theorem probes_in_claimed_session_checked {e : Ecu σ} (A : AnsBySession e) (hr : ReadsBack A)
+    (hk : Keeps A readSessionPdu) (cfg : SvcCfg) (hc : cfg.checkSession = true) (k : Nat)
+    (hm : MaintNotProbe cfg.hooks k) (s : σ) (lg : List (Nat × Bytes)) :
+    ∃ new, (performScan (slogged A) cfg (some k) (s, lg)).1.2 = new ++ lg ∧
+      ∀ x ∈ new, ∀ sid l, x.2 = probePdu sid l → (l = 1 ∨ KeepsProbes A sid) → x.1 = k :=
+  performScanFrom_claimed A hr hk cfg hc k hm allSids (s, lg)
+
+/-- reported ⇒ implemented with `--check-session` on, for ECUs that lose the session: whatever is recorded for a
+    service id whose own probes keep the session was answered in session `k` by a meaningful answer, hence (ISO default
+    rule) is implemented in session `k` — also in a scan that was given up -/
+theorem found_supported_checked {e : Ecu σ} (A : AnsBySession e) (hr : ReadsBack A) (hk : Keeps A readSessionPdu)
+    (supp : Nat → Nat → Bool) (iso : IsoServiceRule A.ans supp)
+    (cfg : SvcCfg) (hc : cfg.checkSession = true) (k : Nat) (s : σ) (out : ScanOut)
+    (hout : (performScan e cfg (some k) s).2 = .ok out) :
+    ∀ p ∈ out.found, KeepsProbes A p.1 →
+      p.1 < 256 ∧ sidSelected cfg (some k) p.1 = true ∧ supp k p.1 = true ∧
+      ∃ l ∈ probeLengths, p.2 = A.ans k (probePdu p.1 l) ∧ p.2.meaningful = true := by
+  intro p hp hkp
+  obtain ⟨h1, h2, l, hl, h3, h4⟩ := performScanFrom_checked A hr hk cfg hc k allSids s out hout p hp hkp
+  refine ⟨allSids_lt _ h1, h2, ?_, l, hl, h3, h4⟩
+  cases hsup : supp k p.1 with
+  | true => rfl
+  | false =>
+    have := iso.unsupported k p.1 (probePdu p.1 l) (allSids_lt _ h1) hsup (probePdu_head p.1 l)
+    rw [← h3] at this
+    cases hp2 : p.2 with
+    | pos _ => rw [hp2] at this; simp [Ans.notSupported] at this
+    | neg c =>
+      rw [hp2] at this h4
+      simp only [Ans.notSupported] at this
+      simp only [Ans.meaningful, this] at h4
+      simp at h4
+    | timeout => rw [hp2] at this; simp [Ans.notSupported] at this
+    | illegal => rw [hp2] at this; simp [Ans.notSupported] at this
+    | stuck => rw [hp2] at this; simp [Ans.notSupported] at this
+
+/-- a session the ECU has lost for good (every read-back says so) gets nothing reported under it by a checked scan.
+    What the code does when the session is lost *during* the scan of `k`: the findings made before the loss stay (they
+    were made in session `k`, see `found_supported_checked`), the scan of `k` ends at the failed check (`abortedAt`),
+    later sessions are still scanned, and the run exits with status 1 (`given_up_scan_exits_1`). -/
+theorem lost_session_reports_nothing {e : Ecu σ} (A : AnsBySession e) (hr : ReadsBack A) (hk : Keeps A readSessionPdu)
+    (cfg : SvcCfg) (hc : cfg.checkSession = true) (k : Nat) (hnever : ∀ s, A.sess s ≠ k) (s : σ) (out : ScanOut)
+    (hout : (performScan e cfg (some k) s).2 = .ok out) : out.found = [] :=
+  performScanFrom_never_in_session A hr hk cfg hc k hnever allSids s out hout
+
+/-- for ANY ECU: a failed session check anywhere in the run makes the run unclean (exit status 1), and the failed check
+    belongs to a selected service id of that session -/
+theorem given_up_scan_exits_1 (e : Ecu σ) (cfg : SvcCfg) (sessions : List Nat) (hcfg : cfg.sessions = some sessions)
+    (s : σ) (r : SvcResult) (hr : (serviceScan e cfg s).2 = .ok r) (hab : r.aborted ≠ []) : r.clean = false := by
+  simp only [serviceScan, hcfg] at hr
+  exact svcSessions_aborted_unclean e cfg _ s r hr hab
+
+/-! ### termination with a bound -/
+
+/-- for ANY ECU with a request log and ANY configuration: the whole service scan sends at most `N * svcBound` requests
+    (`N = 1` counting exchanges, `N = max_retry + 1` counting transmissions): per session the session change with its
+    hook requests, per service id the session check (1 + 4 rounds of re-entry and read-back) and four probes, the
+    reset and fewer than 20 pings -/
+theorem requests_bounded {e : Ecu σ} {log : σ → List Bytes} {N : Nat} (L : Logs e log N) (cfg : SvcCfg)
+    (sessions : List Nat) (hcfg : cfg.sessions = some sessions) (s : σ) :
+    (log (serviceScan e cfg s).1).length ≤ (log s).length + N * svcBound cfg (activeSessions cfg.skip sessions) := by
+  have := svcSessions_within L cfg (activeSessions cfg.skip sessions) s
+  simpa [serviceScan, hcfg, Within] using this
+
+/-- the bound with the base-class hooks: 3349 exchanges per session with `--check-session`, 1045 without -/
+example (cfg : SvcCfg) (hh : cfg.hooks = {}) (k : Nat) :
+    sessionCost cfg k = if cfg.checkSession then 3349 else 1045 := by
+  cases hc : cfg.checkSession <;>
+    simp [sessionCost, setCost, hookCost, sidCost, checkCost, resetCost, waitBudget, checkRetries, probeLengths, hh, hc]
+
 /-! ### non-vacuity: a concrete ECU in the class, with two sessions, a service answering only long probes and an
     honest session read-back -/
 
@@ -544,5 +638,61 @@ theorem isoRule : IsoServiceRule ans supp where
 example : ∀ ss, (ans ss (dscPdu 1)).isPos = true ∧ (ans ss (dscPdu 2)).isPos = true := fun _ => ⟨rfl, rfl⟩
 
 end Example
+
+/-! ### non-vacuity of the `--check-session` theorems: an ECU that falls back to the default session whenever it
+    receives a CommunicationControl (0x28) request.  Service 0x2E exists only in session 1, service 0x31 only in
+    session 2. -/
+
+namespace Dropping
+
+def sessOf (s : Bool) : Nat := if s then 2 else 1
+
+def ans (ss : Nat) (p : Bytes) : Ans :=
+  match p with
+  | [0x10, 0x02] => .pos [0x50, 0x02]
+  | [0x10, 0x01] => .pos [0x50, 0x01]
+  | [0x22, 0xF1, 0x86] => .pos [0x62, 0xF1, 0x86, b ss]
+  | 0x2E :: _ => if ss = 1 then .neg 0x33 else .neg SNSIAS
+  | 0x31 :: _ => if ss = 2 then .neg 0x33 else .neg SNSIAS
+  | _ => .neg SNS
+
+def next (s : Bool) (p : Bytes) : Bool :=
+  match p with
+  | [0x10, 0x02] => true
+  | [0x10, 0x01] => false
+  | 0x28 :: _ => false
+  | _ => s
+
+def ecu : Ecu Bool := ⟨fun s p => (next s p, ans (sessOf s) p)⟩
+
+def A : AnsBySession ecu := ⟨sessOf, ans, fun _ _ => rfl⟩
+
+theorem readsBack : ReadsBack A := by
+  intro s
+  cases s <;> exact ⟨_, rfl, by decide⟩
+
+theorem keepsReadback : Keeps A readSessionPdu := fun s => by cases s <;> rfl
+
+def cfg (check : Bool) : SvcCfg := { sessions := some [2], checkSession := check, scanResponseIds := false, skip := [] }
+
+/-- without `--check-session` the probe of 0x28 throws the ECU back to session 1 unnoticed and 0x2E, which exists only
+    there, is reported under session 2; 0x31, which exists in session 2, is missed -/
+example : (match (serviceScan ecu (cfg false) false).2 with | .ok r => (r.result, r.clean) | .raised _ => ([], false)) =
+    ([(2, 0x2E)], true) := by decide +kernel
+
+/-- with `--check-session` the loss is noticed before the next service id, the session is re-entered, and the report
+    is the truth about session 2 -/
+example : (match (serviceScan ecu (cfg true) false).2 with | .ok r => (r.result, r.clean) | .raised _ => ([], false)) =
+    ([(2, 0x31)], true) := by decide +kernel
+
+/-- 0x2E and 0x31 are service ids whose probes keep the session; 0x28 is not -/
+example : KeepsProbes A 0x2E ∧ KeepsProbes A 0x31 ∧ ¬ KeepsProbes A 0x28 := by
+  refine ⟨fun l s => by cases s <;> rfl, fun l s => by cases s <;> rfl, fun h => ?_⟩
+  have := h 1 true
+  simp [A, ecu, next, sessOf, probePdu, b] at this
+
+example : MaintNotProbe (cfg true).hooks 2 := ⟨by decide, by decide, by intro p hp; simp [cfg] at hp⟩
+
+end Dropping
 
 end Gallia.C10
